@@ -56,9 +56,273 @@ func VerifP_C01C02C04C05C12_Hover(i int) {
 			verifAssert(verifAnd(hd.Range.Start.Byte <= pos.Byte, pos.Byte <= hd.Range.End.Byte), "C12:range-contains-cursor"+verifCursorTag())
 			verifAssert(verifOr(pos.Byte < hd.Range.End.Byte, hd.Range.Start.Byte == hd.Range.End.Byte), "C12:range-contains-cursor-half-open"+verifCursorTag())
 		}
+		if err == nil {
+			body := d.pathCtx.Files[vf].Body.(*hclsyntax.Body)
+			verifCheckHoverElement(body, d.pathCtx.Schema, pos, hd)
+		}
 	})
 	verifNoWrites("C04:hover-writes", true)
 	verifNoWrites("C05:hover-writes", false)
+	verifReach("end")
+}
+
+func verifIn(r hcl.Range, pos hcl.Pos) bool {
+	return verifAnd(r.Start.Byte <= pos.Byte, pos.Byte < r.End.Byte)
+}
+
+func verifSameRange(a, b hcl.Range) bool {
+	return verifAnd(verifAnd(a.Start.Byte == b.Start.Byte, a.End.Byte == b.End.Byte),
+		verifAnd(verifAnd(a.Start.Line == b.Start.Line, a.Start.Column == b.Start.Column), verifAnd(a.End.Line == b.End.Line, a.End.Column == b.End.Column)))
+}
+
+// verifCheckHoverElement: on an attribute name, block type or label of a schema-known element the
+// hover names that element, carries the description of the effective schema and has the whole
+// attribute, the type keyword or the label as range; inside a value the range stays inside the value.
+func verifCheckHoverElement(body *hclsyntax.Body, bs *schema.BodySchema, pos hcl.Pos, hd *lang.HoverData) {
+	if bs == nil {
+		return
+	}
+	at := verifCursorTag()
+	for name, attr := range body.Attributes {
+		as, ok := bs.Attributes[name]
+		if !ok {
+			if bs.Extensions != nil && bs.Extensions.Count && name == "count" {
+				as = schemahelper.CountAttributeSchema()
+			} else if bs.Extensions != nil && bs.Extensions.ForEach && name == "for_each" {
+				as = schemahelper.ForEachAttributeSchema()
+			} else if bs.AnyAttribute != nil {
+				as = bs.AnyAttribute
+			} else {
+				continue
+			}
+		}
+		if verifIn(attr.NameRange, pos) {
+			verifAssert(hd != nil, "C12:known-attribute-name-has-hover"+at)
+			if hd != nil {
+				verifAssert(verifSameRange(hd.Range, attr.Range()), "C12:attribute-hover-range-is-whole-attribute"+at)
+				verifAssert(strings.Contains(hd.Content.Value, "**"+name+"**"), "C12:attribute-hover-names-the-attribute"+at)
+				if as.Description.Value != "" {
+					verifAssert(strings.Contains(hd.Content.Value, as.Description.Value), "C12:attribute-hover-carries-schema-description"+at)
+				}
+			}
+			return
+		}
+		if verifIn(attr.Expr.Range(), pos) {
+			if hd != nil {
+				verifAssert(verifAnd(attr.Expr.Range().Start.Byte <= hd.Range.Start.Byte, hd.Range.End.Byte <= attr.Expr.Range().End.Byte), "C12:value-hover-range-inside-the-value"+at)
+			}
+			return
+		}
+	}
+	for _, block := range body.Blocks {
+		bsch, ok := bs.Blocks[block.Type]
+		if !ok {
+			continue
+		}
+		if verifIn(block.TypeRange, pos) {
+			verifAssert(hd != nil, "C12:known-block-type-has-hover"+at)
+			if hd != nil {
+				verifAssert(verifSameRange(hd.Range, block.TypeRange), "C12:block-hover-range-is-type-keyword"+at)
+				verifAssert(strings.Contains(hd.Content.Value, "**"+block.Type+"**"), "C12:block-hover-names-the-block"+at)
+			}
+			return
+		}
+		for i, lr := range block.LabelRanges {
+			if i < len(bsch.Labels) && verifIn(lr, pos) {
+				verifAssert(hd != nil, "C12:known-label-has-hover"+at)
+				if hd != nil {
+					verifAssert(verifSameRange(hd.Range, lr), "C12:label-hover-range-is-the-label"+at)
+					verifAssert(strings.Contains(hd.Content.Value, block.Labels[i]), "C12:label-hover-names-the-label"+at)
+					if es := verifDepEntriesOf(block.Type); es != nil && bsch.Labels[i].IsDepKey {
+						if db := verifSpecDependentBody(block, bsch, es); db != nil {
+							if db.Detail != "" {
+								verifAssert(strings.Contains(hd.Content.Value, db.Detail), "C12:label-hover-carries-effective-body-detail"+at)
+							}
+							if db.Description.Value != "" {
+								verifAssert(strings.Contains(hd.Content.Value, db.Description.Value), "C12:label-hover-carries-effective-body-description"+at)
+							}
+						}
+					}
+				}
+				return
+			}
+		}
+		if block.Body != nil && verifIn(block.Body.Range(), pos) {
+			merged, _ := schemahelper.MergeBlockBodySchemas(block.AsHCLBlock(), bsch)
+			verifCheckHoverElement(block.Body, merged, pos, hd)
+			return
+		}
+	}
+}
+
+// verifSpecDependentBody: the dependent body a block selects, re-stated from the documentation of
+// dependency keys: the values of the labels marked as keys plus the values (reference address or
+// literal) of the written attributes marked as keys select the body declared for exactly those keys.
+func verifSpecDependentBody(block *hclsyntax.Block, bsch *schema.BlockSchema, es []verifDepEntry) *schema.BodySchema {
+	type kv struct{ k, v string }
+	var want []kv
+	for i, l := range bsch.Labels {
+		if l.IsDepKey {
+			if i >= len(block.Labels) {
+				break
+			}
+			want = append(want, kv{"label" + string(rune('0'+i)), block.Labels[i]})
+		}
+	}
+	if bsch.Body != nil && block.Body != nil {
+		for _, name := range bsch.Body.AttributeNames() {
+			if !bsch.Body.Attributes[name].IsDepKey {
+				continue
+			}
+			attr, ok := block.Body.Attributes[name]
+			if !ok {
+				continue
+			}
+			if st, ok := attr.Expr.(*hclsyntax.ScopeTraversalExpr); ok {
+				s := ""
+				for _, step := range st.Traversal {
+					switch x := step.(type) {
+					case hcl.TraverseRoot:
+						s += x.Name
+					case hcl.TraverseAttr:
+						s += "." + x.Name
+					default:
+						return nil
+					}
+				}
+				want = append(want, kv{"attr:" + name, "addr:" + s})
+				continue
+			}
+			val, _ := attr.Expr.Value(nil)
+			if val.IsWhollyKnown() && val.Type() == cty.String {
+				want = append(want, kv{"attr:" + name, "static:" + val.AsString()})
+			} else {
+				return nil
+			}
+		}
+	}
+	for _, e := range es {
+		var have []kv
+		for _, l := range e.keys.Labels {
+			have = append(have, kv{"label" + string(rune('0'+l.Index)), l.Value})
+		}
+		for _, a := range e.keys.Attributes {
+			if len(a.Expr.Address) > 0 {
+				have = append(have, kv{"attr:" + a.Name, "addr:" + a.Expr.Address.String()})
+			} else {
+				have = append(have, kv{"attr:" + a.Name, "static:" + a.Expr.Static.AsString()})
+			}
+		}
+		if len(have) != len(want) {
+			continue
+		}
+		all := true
+		for _, w := range want {
+			found := false
+			for _, h := range have {
+				if h == w {
+					found = true
+				}
+			}
+			if !found {
+				all = false
+			}
+		}
+		if all {
+			return e.body
+		}
+	}
+	return nil
+}
+
+// verifCheckLabelCandidates: with the cursor inside the quotes of a completable label of a
+// top-level block, the candidates are exactly the label values (of that label index) of the
+// block type's dependent-body keys that start with the text between the quote and the cursor.
+func verifCheckLabelCandidates(body *hclsyntax.Body, bs *schema.BodySchema, pos hcl.Pos, cs lang.Candidates) {
+	if bs == nil {
+		return
+	}
+	at := verifCursorTag()
+	for _, block := range body.Blocks {
+		bsch, ok := bs.Blocks[block.Type]
+		es := verifDepEntriesOf(block.Type)
+		if !ok || es == nil {
+			continue
+		}
+		for i, lr := range block.LabelRanges {
+			if i >= len(bsch.Labels) || !bsch.Labels[i].Completable {
+				continue
+			}
+			label := block.Labels[i]
+			// a terminated, quoted label (an unterminated one is recovered by the parser with a
+			// range that runs to the next line: outside this oracle)
+			if lr.End.Byte-lr.Start.Byte != len(label)+2 || lr.Start.Line != lr.End.Line {
+				continue
+			}
+			if !verifAnd(lr.Start.Byte+1 <= pos.Byte, pos.Byte <= lr.End.Byte-1) {
+				continue
+			}
+			k := verifConcretize(pos.Byte-lr.Start.Byte-1, 0, len(label))
+			prefix := label[:k]
+			var want []string
+			for _, e := range es {
+				for _, l := range e.keys.Labels {
+					if l.Index != i || !hasPrefixSym(l.Value, prefix) {
+						continue
+					}
+					dup := false
+					for _, w := range want {
+						if w == l.Value {
+							dup = true
+						}
+					}
+					if !dup {
+						want = append(want, l.Value)
+					}
+				}
+			}
+			for _, w := range want {
+				n := 0
+				for _, c := range cs.List {
+					if c.Label == w {
+						n++
+					}
+				}
+				verifAssert(n == 1, "C07:label-value-of-dependent-keys-offered-once"+at)
+			}
+			verifAssert(len(cs.List) == len(want), "C07:label-candidates-exactly-the-dependent-key-values"+at)
+			for j := 1; j < len(cs.List); j++ {
+				verifAssert(cs.List[j-1].Label <= cs.List[j].Label, "C07:label-candidates-sorted"+at)
+			}
+			return
+		}
+	}
+}
+
+// the seeds whose first block is a "res" block: label completion against the dependent keys
+func verifResSeeds() []int {
+	var out []int
+	for i, s := range verifSeedList() {
+		if len(s.src) > 4 && s.src[:4] == "res " {
+			out = append(out, i)
+		}
+	}
+	return out
+}
+
+func VerifP_C07_LabelCompletion_N() int { return len(verifResSeeds()) }
+func VerifP_C07_LabelCompletion_Name(i int) string {
+	return verifSeedList()[verifResSeeds()[i]].name
+}
+func VerifP_C07_LabelCompletion(i int) {
+	d, _ := verifSeedDecoder(verifResSeeds()[i])
+	pos := verifAnyPos(vf)
+	cs, err := d.CompletionAtPos(context.Background(), vf, pos)
+	if err == nil {
+		if body, ok := d.pathCtx.Files[vf].Body.(*hclsyntax.Body); ok {
+			verifCheckLabelCandidates(body, d.pathCtx.Schema, pos, cs)
+		}
+	}
 	verifReach("end")
 }
 
@@ -72,6 +336,9 @@ func VerifP_C01C02C04C05C06_Completion(i int) {
 		cs, err := d.CompletionAtPos(context.Background(), vf, pos)
 		if err == nil {
 			gCheckCandidates(cs, pos)
+			if body, ok := d.pathCtx.Files[vf].Body.(*hclsyntax.Body); ok {
+				verifCheckLabelCandidates(body, d.pathCtx.Schema, pos, cs)
+			}
 		}
 	})
 	verifNoWrites("C04:completion-writes", true)
@@ -296,11 +563,149 @@ func VerifP_C01C02C04C05C09_Targets(i int) {
 		ts, err := d.CollectReferenceTargets()
 		if err == nil {
 			verifCheckTargets(ts, nil)
+			body := d.pathCtx.Files[vf].Body.(*hclsyntax.Body)
+			verifCheckDeclaredTargets(body, d.pathCtx.Schema, ts)
 		}
 	})
 	verifNoWrites("C04:targets-writes", true)
 	verifNoWrites("C05:targets-writes", false)
 	verifReach("end")
+}
+
+// verifSpecAddress: the address the schema's steps denote for a block or attribute, re-stated from
+// the documentation of the step kinds (static name, label value, attribute name); ok=false when a
+// step cannot be resolved (missing label) or is of a kind this specification does not cover.
+func verifSpecAddress(steps schema.Address, labels []string, attrName string, body *hclsyntax.Body) (string, bool) {
+	out := ""
+	first := true
+	for _, s := range steps {
+		var part string
+		switch st := s.(type) {
+		case schema.AttrValueStep:
+			// the step is the attribute's literal string value; an optional step is left out when
+			// the attribute is not written; anything else written there makes the address unresolvable
+			var attr *hclsyntax.Attribute
+			if body != nil {
+				attr = body.Attributes[st.Name]
+			}
+			if attr == nil {
+				if st.IsOptional {
+					continue
+				}
+				return "", false
+			}
+			val, _ := attr.Expr.Value(nil)
+			if !val.IsWhollyKnown() || val.Type() != cty.String {
+				return "", false
+			}
+			part = val.AsString()
+		case schema.StaticStep:
+			part = st.Name
+		case schema.LabelStep:
+			if int(st.Index) >= len(labels) {
+				return "", false
+			}
+			part = labels[st.Index]
+		case schema.AttrNameStep:
+			part = attrName
+		default:
+			return "", false
+		}
+		if !first {
+			out += "."
+		}
+		first = false
+		out += part
+	}
+	return out, true
+}
+
+// verifCheckDeclaredTargets: every top-level block and attribute the schema marks addressable has a
+// target with the address its steps denote, with the declaration's extent and header as range and
+// definition range; items unknown to the schema have none.
+func verifCheckDeclaredTargets(body *hclsyntax.Body, bs *schema.BodySchema, ts reference.Targets) {
+	if bs == nil {
+		return
+	}
+	for _, block := range body.Blocks {
+		bsch, ok := bs.Blocks[block.Type]
+		if !ok {
+			for _, t := range ts {
+				if t.RangePtr != nil {
+					verifAssert(verifNot(verifAnd(block.Range().Start.Byte <= t.RangePtr.Start.Byte, t.RangePtr.End.Byte <= block.Range().End.Byte)), "C09:no-target-inside-unknown-block")
+				}
+			}
+			continue
+		}
+		if bsch.Address != nil {
+			want, ok := verifSpecAddress(bsch.Address.Steps, block.Labels, "", block.Body)
+			n := 0
+			for _, t := range ts {
+				if !ok && t.RangePtr != nil {
+					verifAssert(verifNot(verifSameRange(*t.RangePtr, block.Range())), "C09:unresolvable-address-has-no-target")
+				}
+				if ok && t.Addr.String() == want && t.RangePtr != nil {
+					if verifSameRange(*t.RangePtr, block.Range()) {
+						n++
+						if t.DefRangePtr != nil {
+							verifAssert(verifSameRange(*t.DefRangePtr, block.DefRange()), "C09:block-target-definition-is-its-header")
+						}
+						verifAssert(t.ScopeId == bsch.Address.ScopeId, "C09:block-target-scope")
+					}
+				}
+			}
+			if ok {
+				verifAssert(n >= 1, "C09:addressable-block-has-target-with-its-extent")
+			}
+		}
+		// locals-like bodies: every attribute of an any-attribute body with an address schema
+		if block.Body != nil && bsch.Body != nil && bsch.Body.AnyAttribute != nil && bsch.Body.AnyAttribute.Address != nil {
+			as := bsch.Body.AnyAttribute
+			for name, attr := range block.Body.Attributes {
+				want, _ := verifSpecAddress(as.Address.Steps, nil, name, nil)
+				typed, untyped := 0, 0
+				for _, t := range ts {
+					if t.Addr.String() == want && t.RangePtr != nil && verifSameRange(*t.RangePtr, attr.SrcRange) {
+						if t.DefRangePtr != nil {
+							verifAssert(verifSameRange(*t.DefRangePtr, attr.NameRange), "C09:attribute-target-definition-is-its-name")
+						}
+						if t.Type == cty.NilType {
+							untyped++
+						} else {
+							typed++
+						}
+					}
+				}
+				if as.Address.AsReference {
+					verifAssert(untyped == 1, "C09:as-reference-attribute-has-one-reference-target")
+				}
+				if as.Address.AsExprType {
+					verifAssert(typed == 1, "C09:as-expr-type-attribute-has-one-typed-target")
+				}
+			}
+		}
+	}
+	for name, attr := range body.Attributes {
+		as, ok := bs.Attributes[name]
+		if !ok || as.Address == nil {
+			if !ok && bs.AnyAttribute == nil {
+				for _, t := range ts {
+					if t.RangePtr != nil {
+						verifAssert(verifNot(verifSameRange(*t.RangePtr, attr.SrcRange)), "C09:no-target-for-unknown-attribute")
+					}
+				}
+			}
+			continue
+		}
+		want, _ := verifSpecAddress(as.Address.Steps, nil, name, nil)
+		n := 0
+		for _, t := range ts {
+			if t.Addr.String() == want && t.RangePtr != nil && verifSameRange(*t.RangePtr, attr.SrcRange) {
+				n++
+			}
+		}
+		verifAssert(n >= 1, "C09:addressable-attribute-has-target-with-its-extent")
+	}
 }
 
 // verifCheckTargets: ranges are real; a nested target extends its parent's address by exactly one
